@@ -548,7 +548,7 @@ def attributeList : Nat → List Attribute → P (List Attribute)
     | none => return acc
     | some a =>
       if acc.any fun b => b.name.text == a.name.text then
-        error ("Duplicate attribute '" ++ (← previous).text ++ "'.")
+        errorAt a.name ("Duplicate attribute '" ++ a.name.text ++ "'.")
         return (acc.filter fun b => b.name.text != a.name.text) ++ [a]
       let acc := acc ++ [a]
       if !(← matchToken .comma) then return acc
